@@ -445,11 +445,11 @@ class Ctx:
                 miss = [k for k in self.keys if ex["out"][k] > 0 and not (ob["est"][k] and ob["in"][k])]
                 t.check(not miss, "C01", "C01.present", ENGINE, lambda: rp2(who=who, missing=miss), dict(sig, kind="disk" if objs[who].is_on_disk else "mem"))
             want_n = ex["n"]
-            if not ex["sat"]:  # the counter's documented meaning is stated below saturation
+            if not ex["sat"] and not ex.get("npin"):  # the counter's documented meaning is stated below saturation (and above its lower limit)
                 t.check(ob["n"] == want_n, "C14", "C14.count.cbloom" if self.counting else "C14.count.bloom", ENGINE, lambda: rp2(who=who), sig)
             if self.counting and o[0] != "bad":
                 t.check(ob["cells"] == ex["cells"], "C16", "C16.no_half_update", ENGINE, lambda: rp2(who=who), sig)
-            if ex["sat"]:      # a pinned counter: at the upper limit, or at 0 when removals exceed what started as an estimate of distinct keys
+            if ex["sat"] or ex.get("npin"):      # a pinned counter: at the upper limit, or at 0 when removals exceed what started as an estimate of distinct keys
                 t.check(ob["n"] == want_n, "C16", "C16.total_pinned", ENGINE, lambda: rp2(who=who), sig)
             if ob["cells"] != ex["cells"] or ob["n"] != want_n:
                 t.add_drift(ENGINE, {"table": table, "history": hist, "op": o, "who": who, "expected": ex, "observed": ob})
@@ -481,6 +481,10 @@ class Ctx:
                 same = same and open(self.pathof(f), "rb").read() == open(self.pathof(fresh), "rb").read()
                 self.release({"x": fresh})
             t.check(same, "C19", "C19.clear_fresh.bloom", ENGINE, rp2, sig)
+        if self.counting and o[0] == "rem" and not exp[w]["sat"]:
+            # "removing what was added restores the filter exactly": below saturation a legitimate removal is determined cell by cell, also on
+            # a union / intersection result (which owes what its operands owed, whatever its counter says)
+            t.check(obs[w]["cells"] == exp[w]["cells"] and ret == exp_ret, "C08", "C08.cb_remove_exact", ENGINE, rp2, sig)
         if self.counting and o[0] in ("add", "rem"):
             t.check(ret == exp_ret, "C16", "C16.pinned_value", ENGINE, rp2, sig)
             sat = exp[w]["sat"]
